@@ -182,6 +182,7 @@ const (
 	ENull
 	ETime       // RFC3339Nano string equal to T
 	ETimeWindow // RFC3339Nano string within [T, T2]
+	ETimeInZone // RFC3339Nano string for instant T, written in T's own zone offset (the record's own time)
 	EJSON       // subtree equal to the reference encoding Ref
 	EErrString  // any JSON string (an encoding error rendered as text; the text itself may be empty)
 	EObject
@@ -347,13 +348,20 @@ func Match(e Exp, a JVal, path string) string {
 		if a.Kind != JNull {
 			return fmt.Sprintf("%s: got %s, want null", path, a)
 		}
-	case ETime, ETimeWindow:
+	case ETime, ETimeWindow, ETimeInZone:
 		if a.Kind != JString {
 			return fmt.Sprintf("%s: got %s, want a time string", path, a)
 		}
 		t, err := time.Parse(time.RFC3339Nano, a.Str)
 		if err != nil {
 			return fmt.Sprintf("%s: %q does not parse as RFC3339Nano: %v", path, a.Str, err)
+		}
+		if e.Kind == ETimeInZone {
+			_, got := t.Zone()
+			_, want := e.T.Zone()
+			if !t.Equal(e.T) || got != want {
+				return fmt.Sprintf("%s: time %q is not the record's time %s (same instant, in the zone the record carries)", path, a.Str, e.T.Format(time.RFC3339Nano))
+			}
 		}
 		if e.Kind == ETime && !t.Equal(e.T) {
 			return fmt.Sprintf("%s: time %q is not the instant %s", path, a.Str, e.T.Format(time.RFC3339Nano))
